@@ -52,6 +52,9 @@ def program(rng):
             # still carry the offsets / stride of the Rust struct
             nbuf += 1
             lines.append("@group(0) @binding(%d) var<storage, read> buf%d: array<%s, 4>;" % (nbuf, nbuf, n))
+        if rng.random() < 0.25:
+            # a NON-entry helper that takes and returns the vertex input struct (skinning, unpacking ...): still an input struct
+            lines.append("fn adjust_%s(v: %s) -> %s { return v; }" % (n.lower(), n, n))
     nent = rng.randint(1, 3)
     for e in range(nent):
         chosen, used_bi = [], set()
